@@ -27,12 +27,65 @@ open Dawgs.C18
 
 /-! ## Checkpoint -/
 
+/-- `dumpCheckpointIdentity`, field by field (the field list is re-extracted from the source on every run and
+compared with `identityFieldNames`, see Props/C19Identity.lean). The two digests are idealised as collision
+free: they are represented by the digested value itself; they are present exactly when scrubbing is on. -/
 structure Identity where
-  graphs : List String
-  codec : String
-  batch : Nat
-  shard : Nat
+  driver : String                   -- Driver
+  graphs : List String              -- Graphs: the target names, in order
+  codec : String                    -- Compression
+  level : Nat                       -- CompressionLevel (= options.ZstdLevel)
+  scrub : Bool                      -- Scrub (false = none, true = full)
+  rulesVersion : Option String      -- ScrubRulesVersion (a constant, set when scrubbing)
+  configDigest : Option String      -- ScrubConfigSHA256: digest of the scrub configuration with the salt blanked
+  saltDigest : Option String        -- ScrubSaltSHA256: digest of the salt, taken before the blanking
+  shard : Nat                       -- ShardSize
+  batch : Nat                       -- BatchSize
 deriving DecidableEq, Repr
+
+def identityFieldNames : List String :=
+  ["Driver", "Graphs", "Compression", "CompressionLevel", "Scrub", "ScrubRulesVersion", "ScrubConfigSHA256", "ScrubSaltSHA256",
+   "ShardSize", "BatchSize"]
+
+def scrubRulesVersion : String := "retriever-scrub-v2"
+
+/-- everything a `Dump` call is given: the driver name, the targets and every field of `DumpOptions`.
+`Progress` (a callback) has no value to compare and is represented by `progressSet`. -/
+structure Opts where
+  driver : String
+  targets : List String
+  outputDir : String
+  force : Bool
+  resume : Bool
+  scrub : Bool
+  salt : String                     -- as the scrubber normalises it (`strings.TrimSpace`)
+  scrubConfig : String              -- the scrub configuration the reader decodes to (normalised, salt excluded)
+  compression : String
+  zstdLevel : Nat
+  shardSize : Nat
+  batchSize : Nat
+  progressInterval : Nat
+  progressSet : Bool
+deriving DecidableEq, Repr
+
+/-- `newDumpCheckpointIdentity` -/
+def identityOf (o : Opts) : Identity :=
+  { driver := o.driver, graphs := o.targets, codec := o.compression, level := o.zstdLevel, scrub := o.scrub,
+    rulesVersion := if o.scrub then some scrubRulesVersion else none,
+    configDigest := if o.scrub then some o.scrubConfig else none,
+    saltDigest := if o.scrub then some o.salt else none,
+    shard := o.shardSize, batch := o.batchSize }
+
+/-- the option fields that are deliberately NOT part of the identity: where the dump lives and how the call is
+made (`OutputDir`, `Force`, `Resume`) and progress reporting (`ProgressInterval`, `Progress`); none of them
+influences a byte of the output -/
+def exemptOptionFields : List String := ["OutputDir", "Force", "Resume", "ProgressInterval", "Progress"]
+
+/-- two calls agree on everything that binds a resume; salt and scrub configuration only matter when scrubbing -/
+def SameBound (a b : Opts) : Prop :=
+  a.driver = b.driver ∧ a.targets = b.targets ∧ a.compression = b.compression ∧ a.zstdLevel = b.zstdLevel ∧
+  a.scrub = b.scrub ∧ a.shardSize = b.shardSize ∧ a.batchSize = b.batchSize ∧
+  (a.scrub = true → a.salt = b.salt ∧ a.scrubConfig = b.scrubConfig)
 
 /-- a committed fragment as a checkpoint / manifest records it (`FileManifest`): the path and — standing
 for count, byte size and SHA-256 — the content -/
